@@ -53,6 +53,21 @@ const REJECTION: [Fam; 14] = [
     Fam::Zeta, Fam::UnitCircle, Fam::UnitBall, Fam::Geometric, Fam::Dirichlet, Fam::StudentT,
 ];
 
+/// Does the call complete within the per-call word budget on a fresh object, in a fresh thread (empty
+/// thread-local state), from the given RNG state? Some(words) if it does.
+fn isolated_words(cell: &Cell, before: &VRng) -> Option<u64> {
+    let (cell, mut r) = (cell.clone(), before.clone());
+    std::thread::spawn(move || {
+        crate::report::quiet_panics();
+        let fresh = build(&cell).ok()?;
+        r.begin_call();
+        catch(|| fresh.sample_v(&mut r)).ok().map(|_| r.call_words)
+    })
+    .join()
+    .ok()
+    .flatten()
+}
+
 pub struct Outcome {
     pub nontrivial: bool,
     pub violation: Option<(String, String)>,
@@ -109,9 +124,18 @@ pub fn run_schedule(s: &Schedule) -> Outcome {
             Action::SampleShared => {
                 let before = shared.clone();
                 let p0 = shared.pos;
+                shared.begin_call();
                 let r = match catch(|| o.sample_v(&mut shared)) {
                     Ok(v) => v,
-                    Err(_) => return out, // panics are C03's business
+                    Err(m) => {
+                        // over the per-call word budget here but not in isolation: the call depends on history
+                        if m.starts_with("WORD_BUDGET") {
+                            if let Some(w) = isolated_words(&cells_now[oi], &before) {
+                                return fail("history_dependent_words", format!("step {stepno}: {key}: the call drew more than 1e5 words in the schedule but returns after {w} words on a fresh object in a fresh thread from the same RNG state"));
+                            }
+                        }
+                        return out; // other panics are C03's business
+                    }
                 };
                 shared_objs.insert(oi);
                 rec.push(Recorded { cell: cells_now[oi].clone(), obj: oi, before, k: 1, results: vec![r], words: shared.pos - p0, shared: true });
@@ -119,9 +143,17 @@ pub fn run_schedule(s: &Schedule) -> Outcome {
             Action::SamplePrivate(sd) => {
                 let mut pr = VRng::from_env(hseed(&[s.seed, *sd]));
                 let before = pr.clone();
+                pr.begin_call();
                 let r = match catch(|| o.sample_v(&mut pr)) {
                     Ok(v) => v,
-                    Err(_) => return out,
+                    Err(m) => {
+                        if m.starts_with("WORD_BUDGET") {
+                            if let Some(w) = isolated_words(&cells_now[oi], &before) {
+                                return fail("history_dependent_words", format!("step {stepno}: {key}: the call drew more than 1e5 words in the schedule but returns after {w} words on a fresh object in a fresh thread from the same RNG state"));
+                            }
+                        }
+                        return out;
+                    }
                 };
                 rec.push(Recorded { cell: cells_now[oi].clone(), obj: oi, before, k: 1, results: vec![r], words: pr.pos, shared: false });
             }
@@ -129,9 +161,17 @@ pub fn run_schedule(s: &Schedule) -> Outcome {
                 let k = (*k as usize % 5) + 1;
                 let before = shared.clone();
                 let p0 = shared.pos;
+                shared.begin_call();
                 let rs = match catch(|| o.iter_take(&mut shared, k)) {
                     Ok(v) => v,
-                    Err(_) => return out,
+                    Err(m) => {
+                        if m.starts_with("WORD_BUDGET") {
+                            if let Some(w) = isolated_words(&cells_now[oi], &before) {
+                                return fail("history_dependent_words", format!("step {stepno}: {key}: sample_iter().take({k}) drew more than 1e5 words in the schedule but the first call returns after {w} words on a fresh object in a fresh thread from the same RNG state"));
+                            }
+                        }
+                        return out;
+                    }
                 };
                 shared_objs.insert(oi);
                 rec.push(Recorded { cell: cells_now[oi].clone(), obj: oi, before, k, results: rs, words: shared.pos - p0, shared: true });
@@ -216,9 +256,15 @@ pub fn run_schedule(s: &Schedule) -> Outcome {
             let p0 = r.pos;
             let mut got = vec![];
             for _ in 0..k {
+                r.begin_call();
                 match catch(|| fresh.sample_v(&mut r)) {
                     Ok(v) => got.push(v.bits()),
-                    Err(_) => return None,
+                    Err(m) => {
+                        if m.starts_with("WORD_BUDGET") {
+                            return Some(("history_dependent_words".into(), format!("{}: the call recorded in the schedule returned after {} words; replayed in isolation (fresh object, fresh thread, same RNG state) it drew more than 1e5 words", cell.key(), words)));
+                        }
+                        return None;
+                    }
                 }
             }
             if got != res_bits {
@@ -403,6 +449,34 @@ pub fn run(ctx: &Ctx) {
             }
         }
     }
+    // same-type triples (a cache with two slots survives any pair): a, b, c in runs, then each again
+    for (_, v) in by_type.iter() {
+        if v.len() < 3 {
+            continue;
+        }
+        for k in 0..(v.len() / 3).min(3) {
+            let (a, b, c) = (v[k].clone(), v[v.len() / 2 + k % (v.len() / 2).max(1)].clone(), v[v.len() - 1 - k].clone());
+            if a == b || b == c || a == c {
+                continue;
+            }
+            for order in 0..2 {
+                let cells = if order == 0 { vec![a.clone(), b.clone(), c.clone()] } else { vec![c.clone(), a.clone(), b.clone()] };
+                let mut steps: Vec<(usize, Action)> = vec![];
+                for round in 0..3 {
+                    for obj in 0..3usize {
+                        steps.extend((0..(if round == 0 { 24 } else { 6 })).map(|_| (obj, Action::IterTake(4))));
+                    }
+                }
+                let s = Schedule { cells, steps, seed: hseed(&[ctx.seed, k as u64, order, 0x3A11]) };
+                ctx.eval(1);
+                let o = run_schedule(&s);
+                ctx.nontrivial(hseed(&[crate::rng::hstr(&a.key()), k as u64, order, 9]));
+                if let Some((sym, msg)) = o.violation {
+                    report(ctx, &s, &sym, &msg);
+                }
+            }
+        }
+    }
     // endurance: many samples from one object never change it (Debug / PartialEq / clone equality)
     let m_end: u64 = if ctx.thorough() { 2_000_000 } else { 100_000 };
     {
@@ -415,10 +489,24 @@ pub fn run(ctx: &Ctx) {
             let before = o.debug();
             let clone0 = o.clone_box();
             let mut rng = VRng::from_env(hseed(&[ctx.seed, cell.hash64(), 0xE2D]));
-            rng.budget = u64::MAX;
             let mut done = 0u64;
-            for _ in 0..m_end {
-                if catch(|| o.sample_v(&mut rng)).is_err() {
+            for i in 0..m_end {
+                // the worker thread has sampled other pool cells before: a call that exhausts the per-call
+                // word budget here but not on a fresh thread depends on that history
+                let before = if i % 64 == 0 { Some(rng.clone()) } else { None };
+                rng.begin_call();
+                if let Err(m) = catch(|| o.sample_v(&mut rng)) {
+                    if m.starts_with("WORD_BUDGET") {
+                        let b = before.unwrap_or_else(|| {
+                            // re-derive the state before this call: replay the stream up to here is not possible
+                            // after the panic; use a fresh stream (the comparison is about termination, not values)
+                            VRng::from_env(hseed(&[ctx.seed, cell.hash64(), i, 0xE2E]))
+                        });
+                        if let Some(w) = isolated_words(cell, &b) {
+                            let s = Schedule { cells: vec![cell.clone()], steps: vec![], seed: 0 };
+                            report(ctx, &s, "history_dependent_words", &format!("{}: sample {} of the endurance run (on a worker thread that sampled other objects before) drew more than 1e5 words; a fresh object in a fresh thread returns after {w} words", cell.key(), i));
+                        }
+                    }
                     break;
                 }
                 done += 1;
